@@ -18,13 +18,16 @@ EXTENDS Registry, Json
 
 CONSTANTS Focus      \* set of property ids, e.g. {"C02"}
 
-VARIABLES lastgc, \* repository collected by the immediately preceding event ("" otherwise)
+VARIABLES prevobs, \* observation logged with the previous event
+          rsum,    \* digest of the root directory tree after the previous event
+          osum,    \* digest of everything next to the root directory (sentinels) after the previous event
+          lastgc, \* repository collected by the immediately preceding event ("" otherwise)
           l,      \* next line of the trace file
           skip,   \* the current trace already failed: ignore its remaining events
           fails,  \* sequence of failure records
           stats   \* [events, checked]: counters for the evidence
 
-tvars == <<vars, lastgc, l, skip, fails, stats>>
+tvars == <<vars, prevobs, rsum, osum, lastgc, l, skip, fails, stats>>
 
 Trace == ndJsonDeserialize("trace.ndjson")
 
@@ -40,7 +43,7 @@ RespClass(e) == IF e.resp.panic \/ e.resp.hung THEN "error"
                 ELSE "error"
 
 IsRead(e)  == e.op.op \in {"BlobGet", "ManGet"}
-IsEnv(e)   == e.op.op \in {"Restart", "GC", "GCPass", "Age", "MkCorrupt"}
+IsEnv(e)   == e.op.op \in {"Restart", "Reconf", "GC", "GCPass", "Age", "MkCorrupt"}
 
 \* the response: class, pinned status, and the fields the properties name
 CResp(e) ==
@@ -139,11 +142,56 @@ CGCIdem(e) ==
   (e.op.op = "GC" /\ lastgc = e.op.repo /\ e.op.repo \in DOMAIN e.obs) =>
      /\ ObsB(e, e.op.repo) = blob[e.op.repo] /\ ObsM(e, e.op.repo) = ManSet(e.op.repo)
 
+\* C10: the directory of a directory store is a valid OCI layout that describes exactly the API-visible state
+HasDisk(e, r) == env.store = "dir" /\ "disk" \in DOMAIN e.obs[r]
+ManSetP(r) == {d \in DOMAIN man'[r] : d \in blob'[r]}
+RECURSIVE Desc(_, _)
+Desc(r, R) == LET n == R \cup UNION {Range(M(CidOf(d)).children) : d \in {x \in R : IsMan(x) /\ M(CidOf(x)).kind = "index"}}
+              IN IF n = R THEN R ELSE Desc(r, n)
+CDiskLayout(e) ==
+  \A r \in DOMAIN e.obs : HasDisk(e, r) =>
+     LET d == e.obs[r].disk IN
+     /\ (blob'[r] # {} \/ DOMAIN man'[r] # {}) => d.exists /\ d.layout = "ok" /\ d.index = "ok"
+     /\ (d.exists /\ d.index # "missing") => d.layout = "ok" /\ d.index = "ok"
+     /\ d.badfiles = <<>> /\ d.stray = <<>>
+CDiskIndex(e) ==
+  \A r \in DOMAIN e.obs : (HasDisk(e, r) /\ e.obs[r].disk.index = "ok") =>
+     LET d == e.obs[r].disk
+         E == S(d.entries)
+         top == {x.d : x \in E}
+     IN /\ \A t \in Tags : Cardinality({i \in DOMAIN d.entries : d.entries[i].t = t}) <= 1          \* unique tags
+        /\ \A x \in E : x.file /\ x.size                                                          \* blob of recorded size
+        /\ {<<x.t, x.d>> : x \in {y \in E : y.t # ""}} = {<<t, tag'[r][t]>> : t \in DOMAIN tag'[r]}  \* tags = API tags
+        /\ \A x \in E : (x.s = "" /\ x.d # "?") => x.d \in DOMAIN man'[r] /\ x.mt = man'[r][x.d]   \* nothing unknown
+        \* every addressable manifest is listed, or a descendant of a listed index, or a referrer with a listed response
+        /\ \A m \in ManSetP(r) : \/ m \in Desc(r, top)
+                                 \/ (SubjectOf(m) # "" /\ \E x \in E : x.s = SubjectOf(m))
+CDiskFiles(e) ==
+  \A r \in DOMAIN e.obs : HasDisk(e, r) =>
+     LET d == e.obs[r].disk IN
+     /\ {f \in S(d.files) : f # "?"} = blob'[r]
+     /\ d.uploads = Cardinality({h \in DOMAIN sess' : sess'[h].open /\ sess'[h].repo = r})
+
+\* C14: a read-only directory store and a memory store over a directory never touch the directory;
+\* requests of a switched-off class are refused and change nothing that can be read
+Frozen == Cfg.readOnly \/ env.store = "memdir"
+CROFrozen(e) == (Frozen /\ e.rootsum # "") => e.rootsum = rsum
+PushOps == {"UpPost", "UpPatch", "UpPut", "ManPut"}
+Disabled(e) == \/ e.op.op \in PushOps /\ ~CanPush
+               \/ e.op.op = "ManDel" /\ ~CanDelete
+               \/ e.op.op = "BlobDel" /\ ~CanBlobDelete
+CRORefused(e) == Disabled(e) => /\ e.resp.status \in 400..499
+                                /\ ("none" \notin DOMAIN prevobs => e.obs = prevobs)
+\* C16: nothing outside the root directory changes
+CConfined(e) == e.outsum = osum
+
 Clauses(e) ==
   { <<"resp", CResp(e)>>, <<"tagsresp", CTagsResp(e)>>, <<"integrity", CIntegrity(e)>>, <<"sync.blobs", CSyncBlobs(e)>>,
     <<"sync.mans", CSyncMans(e)>>, <<"sync.tags", CSyncTags(e)>>, <<"taglist", CTagList(e)>>,
     <<"refs", CRefs(e)>>, <<"sess", CSess(e)>>, <<"noerr", CNoErr(e)>>,
-    <<"gc.safe", CGCSafe(e)>>, <<"gc.exact", CGCExact(e)>>, <<"gc.idem", CGCIdem(e)>> }
+    <<"gc.safe", CGCSafe(e)>>, <<"gc.exact", CGCExact(e)>>, <<"gc.idem", CGCIdem(e)>>,
+    <<"disk.layout", CDiskLayout(e)>>, <<"disk.index", CDiskIndex(e)>>, <<"disk.files", CDiskFiles(e)>>,
+    <<"ro.frozen", CROFrozen(e)>>, <<"ro.refused", CRORefused(e)>>, <<"confined", CConfined(e)>> }
 
 \* which clauses a property enforces
 Enforced ==
@@ -154,9 +202,25 @@ Enforced ==
     C07 |-> {"resp", "refs", "sync.mans", "noerr"},
     C08 |-> {"resp", "sess", "sync.blobs", "noerr"},
     C05 |-> {"gc.safe", "integrity", "sync.blobs", "sync.mans", "sync.tags", "taglist", "noerr"},
+    C10 |-> {"disk.layout", "disk.index", "disk.files", "sync.blobs", "sync.mans", "sync.tags", "taglist", "refs",
+             "integrity", "gc.safe", "noerr"},
+    C14 |-> {"ro.frozen", "ro.refused", "resp", "sync.blobs", "sync.mans", "sync.tags", "taglist", "refs", "noerr"},
+    C14F |-> {"ro.frozen", "ro.refused", "noerr"},      \* pre-existing foreign directories: content outside the catalogue
+    C16 |-> {"confined", "resp", "sync.blobs", "sync.mans", "sync.tags", "taglist", "refs", "sess", "noerr"},
     C06 |-> {"gc.exact", "gc.idem", "gc.safe", "sync.blobs", "sync.mans", "sync.tags", "taglist", "noerr"} ]
 
 Active == UNION {Enforced[p] : p \in Focus \cap DOMAIN Enforced}
+
+\* diagnosis attached to a failure record: model vs observation, per observed repository
+Detail(e) ==
+  [r \in DOMAIN e.obs |->
+     [blob_model_only |-> blob'[r] \ S(e.obs[r].blobs), blob_obs_only |-> S(e.obs[r].blobs) \ blob'[r],
+      man_model_only |-> {x[1] : x \in ModelMans(r)} \ {x.d : x \in S(e.obs[r].mans)},
+      man_obs_only |-> {x.d : x \in S(e.obs[r].mans)} \ {x[1] : x \in ModelMans(r)},
+      tags_model |-> ModelTags(r),
+      refs_wrong |-> {<<x.s, x.f>> : x \in {y \in S(e.obs[r].refs) :
+                        S(y.list) # {d \in {z \in DOMAIN man'[r] : SubjectOf(z) = y.s} : y.f = "" \/ ATOf(d) = y.f}}},
+      resp_model |-> resp']]
 
 Failed(e) == {c[1] : c \in {x \in Clauses(e) : ~x[2] /\ x[1] \in Active}}
 
@@ -172,7 +236,7 @@ GCBind(e) ==
   /\ young' = [r \in Repos |-> IF BindRepo(e, r) THEN young[r] \cap ObsB(e, r) ELSE young[r]]
   /\ sess' = IF e.op.op = "Restart" THEN [h \in DOMAIN sess |-> [sess[h] EXCEPT !.open = FALSE]] ELSE sess
   /\ resp' = Ok(0)
-  /\ UNCHANGED <<env, nsess>>
+  /\ UNCHANGED <<env, nsess, base>>
 IsCollection(e) == GCRepos(e) # {} /\ ~(e.op.op = "Restart" /\ GCNoop)
 Step(e) == IF IsCollection(e) THEN GCBind(e) ELSE Do(e.op)
 
@@ -181,6 +245,7 @@ TraceInit ==
   /\ env = EnvOf(Trace[1])
   /\ InitState
   /\ l = 2 /\ skip = FALSE /\ fails = <<>> /\ lastgc = ""
+  /\ prevobs = [none |-> TRUE] /\ rsum = Trace[1].rootsum /\ osum = Trace[1].outsum
   /\ stats = [events |-> 0, checked |-> 0, traces |-> 1]
 
 TraceReset ==
@@ -191,21 +256,25 @@ TraceReset ==
      /\ man' = [r \in ReposOf(en) |-> <<>>]
      /\ tag' = [r \in ReposOf(en) |-> <<>>]
      /\ young' = [r \in ReposOf(en) |-> {}]
+     /\ base' = [blob |-> [r \in ReposOf(en) |-> {}], man |-> [r \in ReposOf(en) |-> <<>>], tag |-> [r \in ReposOf(en) |-> <<>>]]
   /\ sess' = <<>> /\ nsess' = 0 /\ resp' = R0
   /\ l' = l + 1 /\ skip' = FALSE /\ UNCHANGED fails /\ lastgc' = ""
+  /\ prevobs' = [none |-> TRUE] /\ rsum' = Trace[l].rootsum /\ osum' = Trace[l].outsum
   /\ stats' = [stats EXCEPT !.traces = @ + 1]
 
 TraceOp ==
   /\ l <= Len(Trace) /\ Trace[l].k = "op"
   /\ l' = l + 1
   /\ IF skip
-     THEN UNCHANGED <<vars, skip, fails, lastgc>> /\ stats' = [stats EXCEPT !.events = @ + 1]
+     THEN UNCHANGED <<vars, skip, fails, lastgc, prevobs, rsum, osum>> /\ stats' = [stats EXCEPT !.events = @ + 1]
      ELSE LET e == Trace[l] IN
           /\ Step(e)
           /\ lastgc' = IF e.op.op = "GC" THEN e.op.repo ELSE ""
+          /\ prevobs' = e.obs /\ rsum' = e.rootsum /\ osum' = e.outsum
           /\ LET f == Failed(e) IN
              /\ fails' = IF f = {} THEN fails
-                         ELSE Append(fails, [trace |-> env.trace, i |-> e.i, line |-> l, op |-> e.op.op, clauses |-> f])
+                         ELSE Append(fails, [trace |-> env.trace, i |-> e.i, line |-> l, op |-> e.op.op, clauses |-> f,
+                                             detail |-> Detail(e)])
              /\ skip' = (f # {})
           /\ stats' = [stats EXCEPT !.events = @ + 1, !.checked = @ + 1]
 
